@@ -23,6 +23,9 @@ SIGMA = [
     '\\\n', '\x00', ' ', '\n', '\r', '\f', '\t', ',', '>', '+', '~', ':', '::', '(', ')',
     ':not(', ':is(', ':has(', ':nth-child(', ':nth-of-type(', '2n+1', ' of ', ':lang(', ':dir(', 'ltr', ':-soup-contains(', ':contains(',
     '@page', '&', '/*', '*/', '/**/', ':--x', ':root', ':hover', ' i', ' s', 'n', 'even', '[a=b', '[a="b"',
+    # pseudo-class names with a letter written as an escape (of the upper-case and of the lower-case letter): every place that looks the name up
+    # must normalise it the same way
+    ':\\4e th-child(', ':\\4c ang(', ':n\\4f t(', ':\\64 ir(', ':-soup-\\43ontains(', ':\\52oot',
 ]
 CORE = ['a', '*', '|', '#', '.', '[', ']', '=', '"', '\\', ' ', ',', '>', ':', '(', ')']
 CORE2 = ['a', '[', ']', '=', '"', "'", '\\', ' i', ' ſ', ':not(', ')', ',']
